@@ -206,6 +206,9 @@ func evaluate(c Case, ctx int) verdict {
 	if field == "" {
 		field = "*"
 	}
+	if t.Path == "" {
+		t = &Tamper{Msg: t.Msg, Name: t.Name, Dir: t.Dir, Path: "* (whole message)", Op: t.Op}
+	}
 	switch {
 	case !seen || !found:
 		hardErrs = append(hardErrs, fmt.Sprintf("%s: tamper site not reached (seen=%v found=%v; %+v)", c.key(ctx), seen, found, o))
@@ -292,7 +295,8 @@ func lattice() []named {
 
 func hx(x *big.Int) string { return fmt.Sprintf("%x", x) }
 
-func allCases(res *vkit.Result) (cases []Case) {
+func allCases(res *vkit.Result, baseOK bool) (all []Case) {
+	var cases []Case
 	L := lattice()
 	byTag := map[string]named{}
 	for _, n := range fullLattice() {
@@ -382,9 +386,17 @@ func allCases(res *vkit.Result) (cases []Case) {
 			in.AllIdx = true // thorough: the first input of each layer gets the complete index set
 		}
 		seenLayer[in.Layer] = true
+		if !baseOK && in.Layer != "random" && in.Layer != "corresetup" {
+			continue
+		}
 		cases = append(cases, enumerate(in, res)...)
 	}
-	return cases
+	for _, c := range cases {
+		if baseOK || c.Layer == "random" || c.Layer == "corresetup" {
+			all = append(all, c)
+		}
+	}
+	return all
 }
 
 func main() {
@@ -401,16 +413,17 @@ func main() {
 	var rp Case
 	replay := vkit.LoadReplay(&rp)
 
-	// the ONE setup
-	var so outcome
-	so = runCorreSetup(newCtx("base-setup", nil), 100, &base)
-	if so.Panic != "" || so.Err != "" || !so.RelOK {
-		res.Hard(fmt.Sprintf("base correlated-OT setup failed: %+v", so))
-		res.Finish()
-		return
-	}
+	// the ONE setup (context 100 of the setup layer); judged like any honest run
+	baseCase := Case{Layer: "corresetup", Ctxs: []int{100}}
+	so := runCorreSetup(newCtx(rngLabel(baseCase, 100), nil), 100, &base)
+	baseOK := so.Panic == "" && so.Err == "" && so.Finished && so.RelOK
+	needsBase := func(layer string) bool { return layer != "random" && layer != "corresetup" }
 
 	if replay {
+		if !baseOK && needsBase(rp.Layer) {
+			fmt.Printf("base setup fails: %+v\n", so)
+			os.Exit(1)
+		}
 		bad := false
 		for _, ctx := range rp.Ctxs {
 			v := evaluate(rp, ctx)
@@ -430,7 +443,18 @@ func main() {
 	}
 
 	counts := map[string]int{}
-	cases := allCases(res)
+	if !baseOK {
+		v := evaluate(baseCase, 100)
+		res.Case(baseCase.key(100))
+		if v.Class == "violation" {
+			res.Violate(v.Sig, v.Detail, baseCase)
+		} else {
+			res.Hard(fmt.Sprintf("base correlated-OT setup failed but its re-evaluation did not: %+v", so))
+		}
+		res.Note("the shared correlated-OT setup itself violates its relation; the layers built on it were not explored")
+		res.Exhaustive = false
+	}
+	cases := allCases(res, baseOK)
 	k := -1
 	for _, c := range cases {
 		if !vkit.Want(c.Layer) {
